@@ -13,6 +13,7 @@ import QlibcModel.Conf.AconfFlat
 import QlibcModel.Conf.AconfNested
 import QlibcModel.Conf.AconfMalformed
 import QlibcModel.Conf.AconfNoNl
+import QlibcModel.Conf.AconfLineno
 import QlibcModel.Shapes.Conf
 namespace Qlibc.Props.C20
 open Qlibc Qlibc.Conf Qlibc.Conf.Aconf
@@ -424,6 +425,26 @@ def exCfg : Cfg :=
   { opts := [⟨[72, 111, 115, 116], 1, true, 2, 1⟩, ⟨[68, 105, 114], 0, true, 4, 2⟩,
              ⟨[80, 111, 114, 116], 1 ||| Generated.Conf.qacA1Int, true, 0, 4⟩],
     defcb := false, flags := 0, cbFail := fun _ => none }
+
+/-- ac_line_number_range: the line number of an error message and the returned count are natural
+    numbers in the model; for EVERY table and file they are at most the number of bytes of the file
+    (every line read consumes at least one byte), so they are the numbers the C fields hold - without
+    wrap-around - whenever the file is shorter than what a signed field of the CURRENT width `w` of
+    `qaconf_t.lineno` can count (`w` is regenerated from the header: Shapes.Conf.widths_as_modelled
+    says 4 bytes, i.e. files below 2^31 bytes; a narrower field shrinks the range of every theorem
+    that names a line: ac_malformed, ac_long_line_error, ac_accept_iff …). -/
+theorem ac_line_number_range (cfg : Cfg) (file : Bytes) (evs : List Event) (r : Res)
+    (h : parse cfg file = .ok (evs, r)) :
+    ((∀ l m, r = .err l m → l ≤ file.length) ∧ (∀ n, r = .count n → n ≤ file.length)) ∧
+    ∀ w, ("aconf_lineno", w) ∈ Generated.Shapes.confWidths → file.length < 2 ^ (8 * w - 1) →
+      (∀ l m, r = .err l m → l < 2 ^ (8 * w - 1)) ∧ (∀ n, r = .count n → n < 2 ^ (8 * w - 1)) := by
+  have hb := parse_bound cfg file evs r h
+  refine ⟨hb, fun w _ hsz => ⟨fun l m hr => ?_, fun n hr => ?_⟩⟩
+  · exact Nat.lt_of_le_of_lt (hb.1 l m hr) hsz
+  · exact Nat.lt_of_le_of_lt (hb.2 n hr) hsz
+
+/-- the width that instantiates it today: `int lineno` -/
+theorem ac_line_number_width : ("aconf_lineno", 4) ∈ Generated.Shapes.confWidths := by decide
 
 open Generated.Conf in
 example : Conforms exCfg exDoc Ctx.root 0 := by
